@@ -16,7 +16,7 @@
 #include "dfs_catalog.h"
 
 #include <assert.h>         // for assert
-#include <ctype.h>          // for isgraph
+#include <ctype.h>          // for isgraph, toupper
 #include <stdlib.h>         // for ldiv_t, ldiv
 #include <algorithm>        // for copy, all_of, find_if
 #include <iomanip>          // for operator<<, setw, setfill
@@ -140,7 +140,10 @@ namespace DFS
 
   bool CatalogEntry::has_name(const ParsedFileName& wanted) const
   {
-    if (wanted.dir != directory())
+    // DFS compares file names, including the directory letter,
+    // without regard to case.
+    if (toupper(static_cast<unsigned char>(wanted.dir))
+	!= toupper(static_cast<unsigned char>(directory())))
       {
 #if VERBOSE_FOR_TESTS
 	std::cerr << "No match; " << wanted.dir << " != " << directory() << "\n";
